@@ -388,6 +388,10 @@ def gen(prop, stream, tier, avoid):
                 if rng.chance(0.25):
                     # a short interval (a parametric range in small units), possibly descending
                     op["stop"] = a + rng.pick([1, 3, 5]) * rng.pick([2.0 ** -20, 2.0 ** -24, 2.0 ** -27, 2.0 ** -30]) * rng.pick([1, 1, -1])
+                if rng.chance(0.2):
+                    # the documented `decimals` keyword (what evaluating a shape built with precision=k passes): this call is rounded
+                    # to k decimals - and no later default call may be
+                    op["decimals"] = rng.pick([2, 3, 6, 12])
             ops.append(op)
     return {"knobs": knobs, "ops": ops}
 
@@ -460,6 +464,8 @@ def _call(op):
     if k == "binomial_coefficient":
         return L.binomial_coefficient(op["k"], op["i"])
     if k == "linspace":
+        if op.get("decimals") is not None:
+            return L.linspace(op["start"], op["stop"], op["num"], decimals=op["decimals"])
         return L.linspace(op["start"], op["stop"], op["num"])
     raise KeyError(k)
 
@@ -744,8 +750,13 @@ def run(script, ctx):
             a, b, num = op["start"], op["stop"], op["num"]
             ex = [a + (b - a) * t / (num - 1) for t in range(num)]
             lo_, hi_ = min(a, b) - 1e-18, max(a, b) + 1e-18      # (the samples are rounded to the documented 18 decimals)
-            if len(res) == num and any(not (lo_ <= x <= hi_) for x in res):
+            if op.get("decimals") is None and len(res) == num and any(not (lo_ <= x <= hi_) for x in res):
                 ctx.fail("wrong_result", "linspace(%r,%r,%d) leaves the interval: %r" % (a, b, num, [x for x in res if not (lo_ <= x <= hi_)][:3]), **sig)
-            if len(res) != num or any(abs(x - y) > 1e-9 * max(abs(b - a), 1e-9 * max(1.0, abs(a), abs(b))) for x, y in zip(res, ex)):
+            if op.get("decimals") is not None:
+                ctx.probe("linspace_with_decimals")
+                half = 0.5 * 10.0 ** -op["decimals"] * (1 + 1e-9) + 1e-12
+                if len(res) != num or any(abs(x - y) > half for x, y in zip(res, ex)):
+                    ctx.fail("wrong_result", "linspace(%r,%r,%d,decimals=%d) = %r" % (a, b, num, op["decimals"], res), **sig)
+            elif len(res) != num or any(abs(x - y) > 1e-9 * max(abs(b - a), 1e-9 * max(1.0, abs(a), abs(b))) for x, y in zip(res, ex)):
                 ctx.fail("wrong_result", "linspace(%r,%r,%d) = %r" % (a, b, num, res), **sig)
         ctx.state("%s:%s" % (k, mclass))
